@@ -79,6 +79,19 @@ func genC07Tasks(r *Rng, g *Gen, w *World, nt int) {
 						}
 					}
 				}
+				if r.P(0.12) {
+					// a binding of the wrong type (or nil): a call that fails in a
+					// built-in, between calls that succeed
+					for _, v := range w.Cfg.Vars {
+						if r.P(0.3) {
+							if r.P(0.25) {
+								p.Bind[v.Name] = VNil()
+							} else {
+								p.Bind[v.Name] = g.Value([]Ty{TBool, TInt, TStr, TIntList, TStrList}[r.Intn(5)])
+							}
+						}
+					}
+				}
 				s.Plan = &p
 			}
 			script = append(script, s)
